@@ -6,6 +6,8 @@ is an accounted claim (swap output, withdrawn liquidity's token deltas, owed fee
 fees, collectable reward, reposition net delta); paying an owed amount is paired with its reset
 and reads the amount before the reset; deposits round up and withdrawals down at every
 liquidity site (delta sign -> round_up); the amounts the pool credits or pays are floored;
+fee growth is flipped, credited and handed to crossed ticks side-consistently and only after
+the step's own fee is booked;
 deposit / withdrawal sides of the swap settlement.
 Not decided: that these roundings compose to vault >= sum of claims over histories; any
 statement about balances; the no-round-trip-profit claim."""
